@@ -3022,6 +3022,7 @@ static void AssembleFile_InitPass(void) {
     ENDOccured = False;
     ErrorCount = 0;
     WarnCount  = 0;
+    JmpErrors  = 0;
     LineSum    = 0;
     MacLineSum = 0;
     for (z = 1; z <= StructSeg; z++) {
